@@ -27,7 +27,7 @@ ANCHORS = [
     "acnportal.acnsim.network.charging_network:ChargingNetwork.update_pilots",
 ]
 REQUIRED = ["runs_judged", "schedules_submitted", "empty_schedules", "schedules_beyond_horizon", "schedule_in_last_period_beyond_horizon",
-            "set_pilot_calls_checked", "held_pilots_checked", "runs_with_one_mapping_object_overwritten_in_place", "twin_runs", "malformed_unknown_station_rejected", "malformed_unequal_rejected", "resumed_after_rejection",
+            "set_pilot_calls_checked", "held_pilots_checked", "runs_with_negative_pilots_cancelling_across_stations", "runs_with_one_mapping_object_overwritten_in_place", "twin_runs", "malformed_unknown_station_rejected", "malformed_unequal_rejected", "resumed_after_rejection",
             "infeasible_schedule_warnings", "probe_ev_cells_checked", "regime:mr-None", "regime:mr-1", "regime:mr-k"]
 BUDGET_S = {"quick": 240, "thorough": 3000}
 
@@ -38,7 +38,8 @@ _WRAPS = []
 def _before(evse, a, k):
     log = PLOG["cur"]
     if log is not None:
-        log.append((evse.station_id, float(a[0] if a else k.get("pilot"))))
+        sim = PLOG.get("sim")
+        log.append((evse.station_id, float(a[0] if a else k.get("pilot")), None if sim is None else sim.iteration))
 
 
 def worker_init():
@@ -66,6 +67,13 @@ def cases(seed, tier):
                          max_len=rng.choice([1, 3, 5, 12]), p_empty=rng.choice([0.0, 0.15, 0.4]))
         if rng.random() < 0.15:
             d["scheduler"].update(mode="allrand", buffered=True, max_len=rng.choice([1, 1, 2, 3]), mr=rng.choice([1, 1, 2]))
+        if rng.random() < 0.08:
+            # bidirectional (V2G) stations: ranges extending below zero and schedules whose pilots cancel across stations
+            for st_ in d["network"]["stations"]:
+                st_["evse"] = {"t": "EVSE", "max": 32, "min": -32}
+            d["scheduler"].update(mode="cancel", mr=rng.choice([1, 1, None, 2]))
+            d["scheduler"].pop("buffered", None)
+            d["v2g"] = True
         mal = None
         if rng.random() < 0.25:
             last = max(s["departure"] for s in d["sessions"])
@@ -135,11 +143,12 @@ def _run(d, mal, typed):
     probe = SimProbe(sim, snapshots=False)
     probe.step_limit = simrun.last_event_ts(d) + 5
     PLOG["cur"] = plog = []
+    PLOG["sim"] = sim
     probe.attach()
     try:
         probe.run()
     finally:
-        PLOG["cur"] = None
+        PLOG["cur"] = PLOG["sim"] = None
         probe.detach()
         hold.remove()
     return sim, evs, probe, sch, plog, box
@@ -149,6 +158,8 @@ def run_case(case, obs):
     from acnportal.acnsim.interface import InvalidScheduleError
     d, mal = case["desc"], case.get("malform")
     sim, evs, probe, sch, plog, box = _run(d, mal, True)
+    if d.get("v2g"):
+        obs.ev("runs_with_negative_pilots_cancelling_across_stations")
     wit = dict(scenario=d, malform=mal)
     ids = list(sim.network.station_ids)
     subs = sch.submitted
@@ -218,22 +229,27 @@ def run_case(case, obs):
         bad = np.argwhere(Pp != Mp)[0]
         obs.violate("pilot_matrix_vs_schedules", f"station {ids[bad[0]]} period {int(bad[1])}: recorded pilot {Pp[tuple(bad)]!r}, schedules say {Mp[tuple(bad)]!r}",
                     submitted=[(t, s) for t, s in good][:8], **wit)
-    # ---- every applied pilot (set_pilot log) equals the model
+    # ---- every applied pilot (set_pilot log, each call tagged with the simulator's period at the time of the call) equals the
+    # model.  A station that receives no call in a period is not judged here (a network may skip stations whose pilot does not
+    # change); what every EVSE holds at the end of every period is judged by the next leg.
     n = len(ids)
     a_periods = [t for t, letter, _ in probe.trace if letter == "A"]
-    groups = [plog[i * n:(i + 1) * n] for i in range(len(a_periods))]
-    for t, grp in zip(a_periods, groups):
-        if len(grp) != n and box.get("snap") is None:
-            obs.violate("set_pilot_calls_missing", f"period {t}: {len(grp)} set_pilot calls for {n} stations", **wit)
-            break
+    per_period = {}
+    for st, pv, t in plog:
+        per_period.setdefault(t, []).append((st, pv))
+    for t in a_periods:
+        grp = per_period.get(t, [])
+        if len(grp) != n and box.get("snap") is None:  # (after a refusal the resumed part of the run is not logged)
+            obs.ev("periods_with_fewer_set_pilot_calls_than_stations")
+        bad = False
         for st, pv in grp:
             obs.ev("set_pilot_calls_checked")
-            if pv != Mp[ids.index(st), t]:
+            if t < Mp.shape[1] and st in ids and pv != Mp[ids.index(st), t]:
                 obs.violate("applied_pilot_vs_schedules", f"period {t} station {st}: EVSE received {pv!r}, schedules say {Mp[ids.index(st), t]!r}", **wit)
+                bad = True
                 break
-        else:
-            continue
-        break
+        if bad:
+            break
     # ---- the pilot each EVSE holds at the end of every period (vacant stations included) equals the model
     for t, pilots in box.get("held", []):
         if t >= Mp.shape[1]:
